@@ -154,6 +154,29 @@ def group_atols(line, rtol):
             i += 1
     return at
 
+def wiring_atols(line, sd, k, rtol=1e-12):
+    """group_atols plus, for the omega block, the conditioning of the closed forms: Gaussian / freely-jointed chains are evaluated as
+    (1 - E^2 - 2E/N + 2E^(N+1)/N)/(1-E)^2, whose absolute rounding error is a few ulp / (1-E)^2 (finding F10); NumPy's and libm's
+    sin/exp differ by an ulp, so model and implementation may differ by that much at small k l."""
+    at = group_atols(line, rtol)
+    toks = line.split()
+    if 'om' not in toks: return at
+    o = toks.index('om') + 4                      # om <space> <length> <rank> values...
+    n = sd['n']; k = np.asarray(k, dtype=float)
+    for (i, j) in pairs_of(n):
+        om = sd['pairs']['%d%d' % (i, j)]['om']
+        if om[0] not in ('gauss', 'fjc'): continue
+        l = float(om[2]); x = k * l
+        with np.errstate(all='ignore'):
+            E = np.exp(-x * x / 6.0) if om[0] == 'gauss' else np.sin(x) / x
+        rho = sd['dens'][i] if i == j else sd['dens'][i] + sd['dens'][j]
+        extra = 4e-15 * abs(rho) / np.maximum((1.0 - E) ** 2, 1e-300)
+        for q in range(len(k)):
+            for (a, b) in ((i, j), (j, i)):
+                t = o + q * n * n + a * n + b
+                if t < len(at): at[t] += float(min(extra[q], 1e300))
+    return at
+
 # ----------------------------------------------------------------- generators
 def grid_multiple(rng, dr, lo, hi):
     """a diameter that is a multiple of dr within [lo, hi]"""
